@@ -507,6 +507,9 @@ def relational_concrete(repo, rule='E6e'):
                     problems.append(('undecided', f'{da} {op} {db}: {str(exc)[:80]}'))
                     continue
                 want = test(ref_value_compare(a, b, rank))
+                if got[0] == 'value' and isinstance(got[1], Sym):
+                    problems.append(('undecided', f'{da} {op} {db} evaluates to the term {got[1]!r}'[:160]))
+                    continue
                 if got != ('value', want) or not isinstance(got[1], bool):
                     problems.append(('relational', f'{da} {op} {db} evaluates to {_fmt(got)}; the total value order gives {want}'))
     return n, problems
